@@ -16,7 +16,4 @@ McTwoClose == [msgs |-> << <<T, T, F>> >>, ctl |-> << <<"close">>, <<"close">> >
 
 \* thorough: longer data program, three control senders
 McBig == [msgs |-> << <<T, F>>, <<T>>, <<F, F>> >>, ctl |-> << <<"ping">>, <<"close">>, <<"pong">> >>, closer |-> TRUE]
-
-\* history variables do not distinguish states of the protocol
-View == <<lock, latch, closed, wire, pc, call, fr, err, late, res>>
 =============================================================================
